@@ -395,6 +395,7 @@ func runC13(ctx *Ctx) error {
 
 	// ---------- (2) end-to-end scenarios
 	ns := ctx.N(60, 400)
+	failedScenarios := 0
 	for i := 0; i < ns; i++ {
 		sc := c13Scenario{
 			id: i, port: byte(r.Intn(256)), mycall: r.Callsign(), peer: r.Callsign(),
@@ -434,6 +435,12 @@ func runC13(ctx *Ctx) error {
 			f.Site = site
 			f.Case = sc.describe()
 			res.Fail(f)
+		}
+		if len(fails) > 0 {
+			failedScenarios++
+			if failedScenarios >= 4 {
+				break // each failing scenario may cost its whole time-out
+			}
 		}
 		if reads != nil && len(fails) == 0 {
 			var ft, st []string
